@@ -5,6 +5,7 @@ CONSTANTS
   Leaves <- L3
   MaxEv = 2
   MaxRcpt = 1
+  CodecStatuses = {"SUCCESS", "CREATED", "ERROR", "RECREATED"}
   CumLens = {0, 1}
   NameChars = {0, 1}
   MaxName = 3
